@@ -221,6 +221,7 @@ pub fn cond_sx(c: &Cond) -> String {
         Cond::Cmp(f, k, op, lit) => format!("(b {} (cast {} {}) {})", opn(op), sx::enc(f), k, litsx(k, lit)),
         Cond::CmpRev(f, k, op, lit) => format!("(b {} {} (cast {} {}))", opn(op), litsx(k, lit), sx::enc(f), k),
         Cond::StrEq(a, b) => format!("(b eq (cast {} str) (cast {} str))", sx::enc(a), sx::enc(b)),
+        Cond::CmpFF(a, k, op, b) => format!("(b {} (cast {} {}) (cast {} {}))", opn(op), sx::enc(a), k, sx::enc(b), k),
     }
 }
 
@@ -775,6 +776,54 @@ pub fn run_c09(ctx: &mut Ctx, _known: &Known) {
             }
         }
     }
+    // (4) the same casts inside shapes the optimiser rewrites (or-of-and sharing a field: matrix rows)
+    let cast_vals: Vec<Yaml> = vec![ys("443"), ys("80"), ys("x"), Yaml::Number(443u64.into()), Yaml::Number(443.0f64.into()), Yaml::Number(442.6f64.into()), Yaml::Bool(true), Yaml::Number(1u64.into()), ys("0.75"), Yaml::Number(0.75f64.into()), Yaml::Null];
+    let mut docs4: Vec<Yaml> = vec![];
+    for v in &cast_vals {
+        for g in ["tcp", "udp", "x"] {
+            docs4.push(mapn(vec![("f".into(), v.clone()), ("g".into(), ys(g))]));
+        }
+    }
+    for (k1, c1, k2, c2) in [("int(f)", Yaml::Number(443i64.into()), "int(f)", Yaml::Number(80i64.into())), ("flt(f)", ys(">=0.5"), "int(f)", Yaml::Number(1i64.into())), ("int(f)", ys(">=80"), "flt(f)", Yaml::Number(0.75f64.into()))] {
+        let rows = Yaml::Sequence(vec![mapn(vec![(k1.into(), c1.clone()), ("g".into(), ys("tcp"))]), mapn(vec![(k2.into(), c2.clone()), ("g".into(), ys("udp"))])]);
+        let cs = case(vec![("X".into(), rows), ("condition".into(), ys("X"))], docs4.clone(), (0..16).collect());
+        let (ex, parsed) = run_rule_case(ctx, &cs, false);
+        let ry = rule_yaml(&cs);
+        if let Some(p) = parsed {
+            if p.load != "ok" {
+                continue;
+            }
+            let num = |v: &Yaml, key: &str| -> Option<f64> {
+                let int = key == "int(f)";
+                match v {
+                    Yaml::Bool(b) => Some(*b as i32 as f64),
+                    Yaml::Number(n) => { let x = n.as_f64().unwrap(); Some(if int { x.round() } else { x }) }
+                    Yaml::String(s) => if int { s.parse::<i64>().ok().map(|x| x as f64) } else { s.parse::<f64>().ok() },
+                    _ => None,
+                }
+            };
+            let holds1 = |v: &Yaml, key: &str, c: &Yaml| -> bool {
+                match (num(v, key), c) {
+                    (Some(x), Yaml::Number(n)) => x == n.as_f64().unwrap(),
+                    (Some(x), Yaml::String(s)) => x >= s[2..].parse::<f64>().unwrap(),
+                    _ => false,
+                }
+            };
+            for m in &p.masks {
+                for (j, d) in docs4.iter().enumerate() {
+                    let dm = d.as_mapping().unwrap();
+                    let fv = dm.get(ys("f")).unwrap();
+                    let gv = dm.get(ys("g")).unwrap().as_str().unwrap();
+                    let want = (holds1(fv, k1, &c1) && gv == "tcp") || (holds1(fv, k2, &c2) && gv == "udp");
+                    ctx.nontrivial.insert(hash_str(&format!("c4{}{}{}", k1, k2, j)));
+                    if (m.res[j].0 == "T") != want {
+                        ctx.violation("oracle", &format!("casts inside an or-of-and (mask {}): document {} gives {} expected {}", m.mask, serde_yaml::to_string(d).unwrap_or_default().replace('\n', " "), m.res[j].0, want), &ex, &ry, true);
+                        break;
+                    }
+                }
+            }
+        }
+    }
     if ctx.samples.len() < 6 {
         ctx.sample(json!({"operators": ops, "int_constants": int_consts, "float_constants": flt_consts, "field_values": field_vals.len()}));
     }
@@ -942,6 +991,62 @@ pub fn run_c10(ctx: &mut Ctx, _known: &Known) {
             }
         }
     }
+    // multi-level nested mappings: arrays of objects at intermediate levels, every switch mask
+    let k3 = budget(ctx, 150, 3000);
+    for i in 0..k3 {
+        let mut r = Rng::new(ctx.seed.wrapping_mul(173).wrapping_add(i as u64));
+        let leaf_s = *r.pick(&["a", "a*", "*b", "x", "3"]);
+        let nested = map1("o", map1("p", map1("q", ys(leaf_s))));
+        let vals = ["a", "ab", "b", "x", "xb", "3"];
+        let mut docs3 = vec![];
+        for _ in 0..5 {
+            let q1 = ys(*r.pick(&vals));
+            let q2 = ys(*r.pick(&vals));
+            docs3.push(match r.below(5) {
+                0 => map1("o", map1("p", Yaml::Sequence(vec![map1("q", q1), map1("q", q2)]))),
+                1 => map1("o", Yaml::Sequence(vec![map1("p", map1("q", q1)), map1("p", map1("q", q2))])),
+                2 => map1("o", map1("p", map1("q", q1))),
+                3 => mapn(vec![("o".into(), ys("scalar")), ("p".into(), map1("q", q1)), ("q".into(), q2)]),
+                _ => map1("o", Yaml::Sequence(vec![map1("p", Yaml::Sequence(vec![map1("q", q1)])), ys("z")])),
+            });
+        }
+        // structural oracle: some element satisfies, at every level
+        fn sat(v: &Yaml, path: &[&str], leaf: &str) -> bool {
+            if path.is_empty() {
+                return match v { Yaml::String(s) => pattern_rel(leaf, s).unwrap_or(false), _ => false };
+            }
+            match v {
+                Yaml::Mapping(m) => match m.get(Yaml::String(path[0].to_string())) {
+                    Some(x) => match x {
+                        Yaml::Sequence(xs) if path.len() > 1 => xs.iter().filter(|e| e.is_mapping()).any(|e| sat(e, &path[1..], leaf)),
+                        Yaml::Sequence(xs) => xs.iter().any(|e| sat(e, &[], leaf)),
+                        other => sat(other, &path[1..], leaf),
+                    },
+                    None => false,
+                },
+                _ => false,
+            }
+        }
+        let c = case(vec![("A".into(), nested), ("condition".into(), ys("A"))], docs3.clone(), (0..16).collect());
+        let (ex, p) = run_rule_case(ctx, &c, false);
+        if let Some(p) = p {
+            if p.load != "ok" {
+                continue;
+            }
+            for m in &p.masks {
+                for (j, d) in docs3.iter().enumerate() {
+                    let want = sat(d, &["o", "p", "q"], leaf_s);
+                    let got = m.res[j].0 == "T";
+                    ctx.nontrivial.insert(hash_str(&format!("n3{}{}", i, j)));
+                    if got != want {
+                        let ry = rule_yaml(&c);
+                        ctx.violation("oracle", &format!("nested mapping o: {{p: {{q: {}}}}} (mask {}) gives {} on {} but structural descent ('some element' at arrays) gives {}", leaf_s, m.mask, got, serde_yaml::to_string(d).unwrap_or_default().replace('\n', " "), want), &ex, &ry, true);
+                        break;
+                    }
+                }
+            }
+        }
+    }
     if ctx.samples.len() < 6 {
         ctx.sample(json!({"paths": all_paths.len(), "documents": docs.len(), "example_path": render(&all_paths[all_paths.len() / 2])}));
     }
@@ -996,9 +1101,40 @@ pub fn run_c17(ctx: &mut Ctx, _known: &Known) {
         let mut r = Rng::new(ctx.seed.wrapping_mul(911).wrapping_add(i as u64));
         let k = 2 + r.below(3);
         let docs: Vec<Yaml> = (0..5).map(|_| gen::gen_doc(&mut r)).collect();
-        let kind = r.below(5);
+        let kind = r.below(6);
         // operands
-        let entries: Vec<(Yaml, Yaml)> = (0..k).map(|_| gen::gen_entry(&mut r, 0)).collect();
+        let mut entries: Vec<(Yaml, Yaml)> = (0..k).map(|_| gen::gen_entry(&mut r, 0)).collect();
+        let mut docs = docs;
+        if kind == 5 {
+            // conjuncts nested on the same field (merged by shake), plus one plain conjunct
+            let f = *r.pick(&["oa", "o"]);
+            entries = vec![
+                (ys(f), map1("k", ys(*r.pick(&["a", "a*", "*b", "x"])))),
+                (ys(f), map1(*r.pick(&["p", "q"]), ys(*r.pick(&["a", "a*", "*b", "x"])))),
+                (ys("s"), ys(*r.pick(&["a", "a*", "x"]))),
+            ];
+            if k == 4 {
+                entries.push((ys("a"), ys("*")));
+            }
+            entries.truncate(k.max(3));
+            docs.clear();
+            for _ in 0..5 {
+                let n = 1 + r.below(3);
+                let elems: Vec<Yaml> = (0..n).map(|_| {
+                    let mut o = Mapping::new();
+                    for g in ["k", "p", "q"] {
+                        if r.chance(55) { o.insert(ys(g), ys(*r.pick(&["a", "ab", "b", "x", "xb"]))); }
+                    }
+                    Yaml::Mapping(o)
+                }).collect();
+                let mut d = Mapping::new();
+                d.insert(ys(f), Yaml::Sequence(elems));
+                d.insert(ys("s"), ys(*r.pick(&["a", "ab", "x"])));
+                d.insert(ys("a"), ys("z"));
+                docs.push(Yaml::Mapping(d));
+            }
+        }
+        let k = if kind == 5 { entries.len() } else { k };
         let members: Vec<Yaml> = (0..k).map(|_| ys(&gen::gen_pattern(&mut r))).collect();
         let perms: Vec<Vec<usize>> = permutations(&(0..k).collect::<Vec<_>>());
         let mut base: Option<(Vec<bool>, Vec<bool>)> = None;
